@@ -158,7 +158,9 @@ def gen_source():
             frep = {"translated": [], "not_translated": {"*": repr(e)}, "extra_inputs": {}}
     return {"facts_derived": rep["some"], "facts_not_derivable": len(rep["none"]),
             "functions_translated": len(frep["translated"]), "functions_not_translatable": sorted(frep["not_translated"]),
-            "functions_with_new_inputs": frep["extra_inputs"]}
+            "functions_with_new_inputs": frep["extra_inputs"],
+            "impl_block_functions_tabled": sum(frep.get("tables", {}).values()) if isinstance(frep.get("tables"), dict) else 0,
+            "function_inventory": frep.get("inventory", {})}
 
 
 def proof_stage(prop, tier):
